@@ -324,6 +324,8 @@ pub fn gen_cards(seed: u64, tier: crate::checks::Tier, derived: bool) -> Scenari
     let times: Vec<i64> = (0..(3 + r.below(5))).map(|_| r.range(0, 2_000_000) as i64 - 1_000_000).chain([0i64, 1_700_000_000]).collect();
     let mut n = 0u64;
     let mut open = true;
+    let mut rb = Rng::new(seed, "cards-bulk");
+    let bulk = rb.chance(1, 3);
     let w_card = if derived { 2 } else { 10 };
     let w_trip = if derived { 10 } else { 3 };
     for _ in 0..n_ops {
@@ -348,7 +350,9 @@ pub fn gen_cards(seed: u64, tier: crate::checks::Tier, derived: bool) -> Scenari
                 };
                 ops.push(Op::CardQuery { entity: r.pick(ENT).to_string(), slot: r.pick(SLOT).to_string(), t });
             }
-            2 => ops.push(Op::Commit),
+            // derived mode, one run in three: commits go through the bulk path (records applied,
+            // no index rebuild), which keeps its own bookkeeping of pending inserts
+            2 => ops.push(if derived && bulk && rb.chance(2, 3) { Op::CommitSkipIndexes } else { Op::Commit }),
             3 => {
                 // an ordinary document between the card operations (so log sequence numbers and
                 // frame ids diverge): whole or chunked
